@@ -467,20 +467,30 @@ int main(int argc, char **argv) {
 	add("pure", 0, 0, {}, {}, A.thorough() ? 1500 : 400, 0, 0);
 	for (size_t n = 2; n <= nmax; n++) for (size_t t = 0; 2 * t < n; t++) {
 		bool rbc_ok = 3 * t < n;          // with 3t >= n the broadcast layer itself tolerates no silent party
+		// t = 0: the broadcast needs the echo of every party, and a party that has moved on to the next (sub)protocol
+		// identifier no longer echoes - such runs only complete through time-outs; they are kept for small n only
+		if (t == 0 && n > (A.thorough() ? 4u : 3u)) continue;
 		std::vector<std::set<size_t> > FS = subsets_upto(n, t);
 		size_t cg_faulty = 0;
 		// quick tier: every faulty set for n <= 4, a seed-dependent sample of them for larger n; thorough: all
 		for (size_t k = 0; k < FS.size(); k++) {
-			bool take = A.thorough() || n <= 4 || FS[k].empty() || pick.below(3) == 0;
+			bool take = A.thorough() || n <= 4 || FS[k].empty() || pick.below(4) == 0;
 			if (!take) continue;
 			unsigned qb = (k % 2) ? 64 : 48, pb = (k % 2) ? 160 : 96;
 			add("vss", n, t, FS[k], {}, (int)(k % 4 == 0 ? 1 : (k % 4)), qb, pb);       // PedersenVSS switches never go silent
 			if (!FS[k].empty() && !rbc_ok) continue;                                       // DKG switches may go silent
 			add("dkg", n, t, FS[k], {}, (int)(k % 3), qb, pb);
-			// CGJKR key generation + refresh: a silent party costs ~10 time-outs, so faulty sets are sampled
+			// CGJKR key generation + refresh (nested broadcast identifiers: needs t >= 1); a silent party costs ~10 time-outs,
+			// so faulty sets are sampled: quick = one set, one of the three phase variants (by seed); thorough = all for n <= 5
+			if (t == 0) continue;
 			if (FS[k].empty()) { if (A.thorough() || n <= 5) add("cgjkr", n, t, {}, {}, 0, qb, pb); continue; }
 			bool cg = A.thorough() ? (n <= 5 || pick.below(8) == 0) : (n == 4 && cg_faulty == 0 && (k == FS.size() - 1 || pick.below(3) == 0));
-			if (cg) { cg_faulty++; add("cgjkr", n, t, FS[k], FS[k], 0, qb, pb); add("cgjkr", n, t, FS[k], {}, 1, qb, pb); add("cgjkr", n, t, {}, FS[k], 2, qb, pb); }
+			if (!cg) continue;
+			cg_faulty++;
+			int only_variant = A.thorough() ? -1 : (int)(A.seed % 3);
+			if (only_variant < 0 || only_variant == 0) add("cgjkr", n, t, FS[k], FS[k], 0, qb, pb);
+			if (only_variant < 0 || only_variant == 1) add("cgjkr", n, t, FS[k], {}, 1, qb, pb);
+			if (only_variant < 0 || only_variant == 2) add("cgjkr", n, t, {}, FS[k], 2, qb, pb);
 		}
 	}
 	if (!A.only.empty()) { std::vector<Scn> L2; for (auto &s : L) if (s.name().find(A.only) != std::string::npos) L2.push_back(s); L = L2; }
